@@ -55,7 +55,11 @@ def gen_framing():
                [("bad", "%d", "MHD_HTTP_BAD_REQUEST"), ("large", "%d", "MHD_HTTP_CONTENT_TOO_LARGE"),
                 ("unk", "%llu", "(unsigned long long) MHD_SIZE_UNKNOWN"), ("u64", "%llu", "(unsigned long long) UINT64_MAX"),
                 ("host", "%s", "MHD_HTTP_HEADER_HOST"), ("te", "%s", "MHD_HTTP_HEADER_TRANSFER_ENCODING"),
-                ("cl", "%s", "MHD_HTTP_HEADER_CONTENT_LENGTH"), ("conn", "%s", "MHD_HTTP_HEADER_CONNECTION")])
+                ("cl", "%s", "MHD_HTTP_HEADER_CONTENT_LENGTH"), ("conn", "%s", "MHD_HTTP_HEADER_CONNECTION"),
+                ("expect", "%s", "MHD_HTTP_HEADER_EXPECT")])
+    n1c = _fn_body(conn, "need_100_continue")
+    m = re.search(r'MHD_str_equal_caseless_ \(expect,\s*"([\w-]+)"\)', n1c or "")
+    tok100 = m.group(1) if m else "100-continue"
 
     def lst(s):
         return "[" + ", ".join(str(b) for b in s.encode()) + "]"
@@ -77,6 +81,8 @@ def gen_framing():
         + "def hdrTransferEncoding : List UInt8 := %s\n" % lst(v["te"]) \
         + "def hdrContentLength : List UInt8 := %s\n" % lst(v["cl"]) \
         + "def hdrConnection : List UInt8 := %s\n" % lst(v["conn"]) \
+        + "def hdrExpect : List UInt8 := %s\n" % lst(v["expect"]) \
+        + "def tok100Continue : List UInt8 := %s\n" % lst(tok100) \
         + "def tokChunked : List UInt8 := %s\n" % lst(chunked) \
         + "def tokClose : List UInt8 := %s\n" % lst("close") \
         + "def tokKeepAlive : List UInt8 := %s\n" % lst("Keep-Alive") \
